@@ -35,6 +35,9 @@ struct Cut {
   bool sanitized = false;     // family S (exports cut_ub_*)
   bool abacus = false;        // sqrt() selects the abacus algorithm at run time (probed, see cut_load)
   const char* sqrt_algo = "?";
+  // optional generated-program object (constant-operand call shapes, C01.const): cutk_<cfg>.so next to --kdir
+  struct KEntry { const char* name; int64_t k; int shape; cut_fn fn; };
+  const KEntry* ktable = nullptr; int nk = 0;
   int (*ub_count)() = nullptr;
   const CutUbEvent* (*ub_events)() = nullptr;
   void (*ub_reset)() = nullptr;
@@ -91,6 +94,23 @@ static inline bool cut_load(Cut& c, const std::string& path, std::string& err)
   return true;
 }
 
+static inline bool cut_load_k(Cut& c, const std::string& kdir, std::string& err)
+{
+  std::string path = kdir + "/cutk_" + c.name + ".so";
+  void* h = dlopen(path.c_str(), RTLD_NOW | RTLD_LOCAL);
+  if (!h) { err = dlerror(); return false; }
+  auto tab = (const Cut::KEntry* (*)(int*))dlsym(h, "cutk_table");
+  if (!tab) { err = "missing cutk_table in " + path; return false; }
+  c.ktable = tab(&c.nk); return true;
+}
+static inline CallResult cut_call_k(const Cut& c, int idx, int64_t a)
+{
+  CallResult r{0, 0};
+  int j = sigsetjmp(g_jb, 0);
+  if (j == 0) { g_in_call = 1; r.v = c.ktable[idx].fn(a, 0, 0); g_in_call = 0; }
+  else { g_in_call = 0; r.trap = j; }
+  return r;
+}
 static inline int entry_id(const std::string& name)
 {
   static std::unordered_map<std::string, int> m;
